@@ -132,7 +132,8 @@ def user(fn):
         if ctx.depth == 0:
             entry = (name,) + tuple(_key(a) for a in args)
             ctx.log.append(entry)
-            ctx.cur = ctx.counts[entry] = ctx.counts.get(entry, 0) + 1
+            ck = (name,) + tuple((type(a).__name__, _key(a)) for a in args)      # 2 and 2.0 are different inputs
+            ctx.cur = ctx.counts[ck] = ctx.counts.get(ck, 0) + 1
         ctx.depth += 1
         try:
             return fn(*args)
@@ -146,9 +147,10 @@ def _fail(v):
     """The point where a user function chokes on v."""
     ctx = _CTX
     if ctx.state == 'fail-once' and v is not None:
-        if v in ctx.failed:
+        k = (type(v).__name__, v)
+        if k in ctx.failed:
             return               # met before: this time the function goes on and succeeds
-        ctx.failed.add(v)
+        ctx.failed.add(k)
     ctx.log.append(('!raise', v))
     raise make_exc(v)
 
@@ -291,7 +293,21 @@ def many_table(reps, behaviours, excrows=(), dclass='Boom'):
 # ------------------------------------------------------------------------------------------------
 
 def is_bang(v):
-    return isinstance(v, str) and v.startswith('!')
+    """The values the user functions choke on: text starting with '!' and - type-sensitively - floats
+    (2.0 fails where the hash-equal 2 does not; 1.0 fails where True does not)."""
+    return (isinstance(v, str) and v.startswith('!')) or type(v) is float
+
+
+# ---- 'eq' tables: columns with hash-equal cells of different types and with repeated values ----------------------
+def eq_alphabets(reps):
+    """(cells of column a, cells of column b): within a column there are hash-equal values of different types
+    (2 / 2.0, True / 1.0, 3 / 3.0) of which only the float fails, and values can repeat from row to row
+    (a repeated failing text as well); no value occurs in both columns."""
+    return (['!%s' % reps['s1'].upper(), 2, 2.0, True, 1.0], ['!%s' % reps['s2'].upper(), 3, 3.0])
+
+
+def eq_table(reps, rows):
+    return [HEADER] + [tuple(r) for r in rows]
 
 
 @user
